@@ -39,7 +39,7 @@ def run(ctx):
         fails += [f for f in r["failures"] if f["prop"] == "C13"]
         for k, v in r["named"].items():
             named[k] = named.get(k, 0) + v
-    for need in ("answered-pod", "answered-nothing"):
+    for need in ("answered-pod", "answered-nothing", "answer-read-later", "several-answers-outstanding"):
         if named.get(need, 0) == 0 and not (ctx.violations or locals().get("fails")):  # no vacuity verdict once something was found
             raise vlib.MachineryError("vacuity: %s never reached" % need)
     ctx.cov["named_situations"] = named
